@@ -342,6 +342,7 @@ class Interp:
         self.np_extra = np_extra or {}  # numpy member name -> callable
         self._nt_types: dict = {}
         self._globals: dict = {}
+        self.function_overrides: dict = {}  # function qualname -> callable(args, kwargs) that stands for the function
         self.steps = 0
         self.max_steps = max_steps
         self.max_depth = max_depth
@@ -461,6 +462,8 @@ class Interp:
 
     # ------------------------------------------------------------------ calls
     def call(self, fn: FunctionInfo, args: list, kwargs: dict | None = None, depth: int = 0):
+        if fn.qualname in self.function_overrides:
+            return self.function_overrides[fn.qualname](args, kwargs or {})
         if depth > self.max_depth:
             raise Unsupported("call depth")
         a = fn.node.args
